@@ -691,7 +691,7 @@ theorem ops_tmpRename (ft : Option FFault) (fs : FS) (cfg : Bytes) :
     PathIn fs cfg (runOps ft (autosaveOps .tmpRename cfg) 0 fs).fs := by
   cases ft with
   | none =>
-    simp [autosaveOps, runOps, ffires, FOp.apply, FOp.during, PathIn]
+    simp [autosaveOps, runOps, ffires, FOp.refused, FOp.apply, FOp.during, PathIn]
     rintro a (⟨n, _, rfl⟩ | rfl | rfl) <;> simp
   | some f =>
     obtain ⟨idx, mode⟩ := f
@@ -700,15 +700,15 @@ theorem ops_tmpRename (ft : Option FFault) (fs : FS) (cfg : Bytes) :
       cases mode <;> simp [autosaveOps, runOps, ffires, FOp.apply, FOp.during, FOp.torn, PathIn]
     · by_cases h2 : idx = 2
       · subst h2
-        cases mode <;> simp [autosaveOps, runOps, ffires, FOp.apply, FOp.during, FOp.torn, PathIn] <;>
+        cases mode <;> simp [autosaveOps, runOps, ffires, FOp.refused, FOp.apply, FOp.during, FOp.torn, PathIn] <;>
           (rintro a (⟨n, _, rfl⟩ | rfl) <;> simp)
       · by_cases h3 : idx = 3
         · subst h3
-          cases mode <;> simp [autosaveOps, runOps, ffires, FOp.apply, FOp.during, FOp.torn, PathIn] <;>
+          cases mode <;> simp [autosaveOps, runOps, ffires, FOp.refused, FOp.apply, FOp.during, FOp.torn, PathIn] <;>
             first
               | (rintro a (⟨n, _, rfl⟩ | rfl | rfl) <;> simp)
               | (rintro a (⟨n, _, rfl⟩ | rfl) <;> simp)
-        · simp [autosaveOps, runOps, ffires, FOp.apply, FOp.during, PathIn, h1, h2, h3]
+        · simp [autosaveOps, runOps, ffires, FOp.refused, FOp.apply, FOp.during, PathIn, h1, h2, h3]
           rintro a (⟨n, _, rfl⟩ | rfl | rfl) <;> simp
 
 /-- without a fault the three operations complete and the file is the new config -/
@@ -716,7 +716,7 @@ theorem ops_tmpRename_nofault (fs : FS) (cfg : Bytes) :
     (runOps none (autosaveOps .tmpRename cfg) 0 fs).fs.path = some cfg ∧
     (runOps none (autosaveOps .tmpRename cfg) 0 fs).status = .done ∧
     (runOps none (autosaveOps .tmpRename cfg) 0 fs).log = autosaveOps .tmpRename cfg := by
-  simp [autosaveOps, runOps, ffires, FOp.apply]
+  simp [autosaveOps, runOps, ffires, FOp.refused, FOp.apply]
 
 /-- the attempted operations are a prefix of the autosave program -/
 theorem runOps_log_prefix (ft : Option FFault) : ∀ (ops : List FOp) (i : Nat) (fs : FS),
@@ -728,7 +728,9 @@ theorem runOps_log_prefix (ft : Option FFault) : ∀ (ops : List FOp) (i : Nat) 
     intro i fs
     unfold runOps
     split
-    · exact List.prefix_cons_inj op |>.mpr (ih (i + 1) (op.apply fs))
+    · split
+      · exact List.prefix_cons_inj op |>.mpr (List.nil_prefix)
+      · exact List.prefix_cons_inj op |>.mpr (ih (i + 1) (op.apply fs))
     all_goals exact List.prefix_cons_inj op |>.mpr (List.nil_prefix)
 
 theorem Good.mono {A B : List Bytes} {fs : FS} (h : Good A fs) (hs : ∀ c ∈ A, c ∈ B) : Good B fs := by
